@@ -10,10 +10,10 @@ Recs == ndJsonDeserialize(IOEnv.VF_RECS)
 Fams == ndJsonDeserialize(IOEnv.VF_FAMS)
 N == Len(Recs)
 K == 64
-VARIABLE i
-Init == i = 0
-Next == \/ /\ i = 0 /\ i' \in {1 + K * s : s \in 0..((N - 1) \div K)}
-        \/ /\ i > 0 /\ i % K # 0 /\ i < N /\ i' = i + 1
+VARIABLE recno          \* (a name no bound variable of the oracle modules uses)
+Init == recno = 0
+Next == \/ /\ recno = 0 /\ recno' \in {1 + K * s : s \in 0..((N - 1) \div K)}
+        \/ /\ recno > 0 /\ recno % K # 0 /\ recno < N /\ recno' = recno + 1
 
 -----------------------------------------------------------------------------
 (* kinds whose JSON form is a string *)
@@ -71,7 +71,7 @@ Class(r) ==
        [] OTHER -> "-"
 (* kept short: TLC wraps printed values longer than a line; the driver looks the record up by its index *)
 Sig(r) == <<Expect(r).k, Class(r)>>
-Judge == i = 0 \/ Ok(Recs[i]) \/ ~PrintT(<<"VF", "BAD", i, Sig(Recs[i])>>)
+Judge == recno = 0 \/ Ok(Recs[recno]) \/ ~PrintT(<<"VF", "BAD", recno, Sig(Recs[recno])>>)
 
 -----------------------------------------------------------------------------
 (* domain completeness: what the harness claims per family really is in the file *)
